@@ -124,6 +124,26 @@ pub fn replay(args: &[String]) {
                     if got.iter().any(|x| *x != base) {
                         s.violation("wire:pdu:accessor", format!("{name} with serial {base:#010x} hands back {got:x?}"), c.clone());
                     }
+                    // ... onto the wire through the PDU's own writer, into a sink that takes five or eleven octets per call
+                    for k in [5usize, 11] {
+                        crate::rtrwire::DRIBBLE.with(|d| d.set(k));
+                        let st2 = rpki::rtr::state::State::from_parts(0x4321, Serial(base));
+                        let written = guarded(|| match name {
+                            "SerialNotify" => Some(crate::rtrwire::write_bytes(|w| async move { pdu::SerialNotify::new(1, st2).write(w).await })),
+                            "SerialQuery" => Some(crate::rtrwire::write_bytes(|w| async move { pdu::SerialQuery::new(2, st2).write(w).await })),
+                            "EndOfDataV0" => Some(crate::rtrwire::write_bytes(|w| async move { pdu::EndOfDataV0::new(st2).write(w).await })),
+                            "EndOfDataV1" => Some(crate::rtrwire::write_bytes(|w| async move { pdu::EndOfDataV1::new(1, st2, Timing::default()).write(w).await })),
+                            "EndOfData(v0)" => Some(crate::rtrwire::write_bytes(|w| async move { pdu::EndOfData::new(0, st2, Timing::default()).write(w).await })),
+                            "EndOfData(v2)" => Some(crate::rtrwire::write_bytes(|w| async move { pdu::EndOfData::new(2, st2, Timing::default()).write(w).await })),
+                            _ => None,
+                        });
+                        crate::rtrwire::DRIBBLE.with(|d| d.set(usize::MAX));
+                        match written {
+                            Ok(Some(w)) => if w != bytes { s.violation("wire:pdu:write", format!("{name} with serial {base:#010x} written {k} octets at a time puts {:02x?} on the wire, its octets are {:02x?}", w, bytes), c.clone()); },
+                            Ok(None) => {}
+                            Err(m) => s.violation("wire:pdu:panic", m, c.clone()),
+                        }
+                    }
                     // ... and back from the wire, however the octets arrive: whole, in threes, one at a time
                     for chunk in [64usize, 3, 1] {
                         match guarded(|| read_serial_back(name, &bytes, chunk)) {
